@@ -13,7 +13,7 @@ SRC_VALUES = [
     ("half", [], "0.5", "number"),
     ("frac", [], "-2.5", "number"),
     ("three", [], "3", "number"),
-    ("big", ["let Big Num be 9007199254740992"], "Big Num", "number"),
+    ("big", ["let Bignum be 9007199254740992"], "Bignum", "number"),
     ("huge", ["let Hu be 1000000000000000000000 times 1000000000000000000000"], "Hu", "number"),
     ("nan", ["let Nn be 0 over 0"], "Nn", "number"),
     ("inf", ["let Pinf be 1 over 0"], "Pinf", "number"),
@@ -31,7 +31,7 @@ SRC_VALUES = [
     ("arr1", ["rock Aone with 1"], "Aone", "array"),
     ("arr3", ["rock Athree with \"a\", 2, mysterious"], "Athree", "array"),
     ("arrdict", ["rock Ad with 1", "let Ad at \"k\" be 2"], "Ad", "array"),
-    ("arrnest", ["rock Inner with 1, 2", "rock An with Inner, 3"], "An", "array"),
+    ("arrnest", ["rock Inner with 1, 2", "rock Nest with Inner, 3"], "Nest", "array"),
 ]
 
 QUICK = ["mysterious", "null", "true", "false", "zero", "negzero", "one", "frac", "nan", "inf", "empty", "abc",
